@@ -251,6 +251,9 @@ def replay(w):
     acts = gen.activations()
     b = (corpus.build_bindings(wit["bindings_src"]) or {}) if wit.get("bindings_src") is not None else acts.get(wit.get("activation") or "empty", {})
     prog = celrun.Prog(wit["runner"], wit["expr"], package=wit.get("package"))
+    if wit.get("bindings_src") is None and wit.get("activation") in gen.ACT_NAMES:
+        for n in gen.activation_sequence(wit["activation"])[:-1]:      # the same program object has seen the earlier activations
+            prog.eval_raw(dict(acts[n]))
     o, raw = prog.eval_raw(dict(b))
     print(wit["expr"], "runner", wit["runner"], "->", outcome.short(o))
     bad = o[0] == "X"
